@@ -18,7 +18,8 @@ MOD = 'checks.c10'
 RULE = (
     "Cases: Hypothesis collections (one roCreate + 2-7 messages of all kinds, roDelete optional) with "
     "distinct numeric message IDs drawn from a pool of mixed digit counts (3, 9, 10, 11, 99, 100, "
-    "1000, 9999, 10000, ...; every list holds at least one pair that sorts differently as text) x k "
+    "1000, 9999, 10000, ...; every list holds at least one pair that sorts differently as text; in half of the lists some "
+    "IDs are written with surrounding whitespace or leading zeros, which int() accepts) x k "
     "drawn permutations of the supplied list (all permutations when <= 4 documents) x each of the "
     "three constructors (strings, files named so that name order != ID order, fake-S3 keys listed in "
     "key order != ID order).  Oracle (metamorphic): [r.message_id for r in mc.mos_readers] is "
@@ -27,7 +28,7 @@ RULE = (
     "objects is ascending by integer message ID.  Non-trivial = >= 3 messages, IDs of >= 2 digit "
     "counts, permutation != sorted order.")
 ASSUMPTIONS = ['message IDs are distinct integers']
-MANDATORY = ['constructor:strings', 'constructor:files', 'constructor:s3', 'lexical!=numeric',
+MANDATORY = ['padded-message-id', 'constructor:strings', 'constructor:files', 'constructor:s3', 'lexical!=numeric',
              'permutation!=sorted', 'sorted(MosFile)']
 
 
@@ -103,7 +104,7 @@ def rejudge(case):
 
 @st.composite
 def cases(draw):
-    col = draw(colgen.collection(min_msgs=2, max_msgs=7, faults='some'))
+    col = draw(colgen.collection(min_msgs=2, max_msgs=7, faults='some', pad_ids=draw(st.booleans())))
     docs = col['docs']
     n = len(docs)
     if n <= 4:
@@ -131,6 +132,8 @@ def shard(args):
         if nonsorted:
             classes.append('permutation!=sorted')
         classes.append(f'permutations:{min(len(case["perms"]), 24)}')
+        if any(('<messageID> ' in d or '<messageID>\n' in d or '<messageID>00' in d) for d in case['docs']):
+            classes.append('padded-message-id')
         nontrivial = len(mids) >= 4 and len(widths) >= 2 and nonsorted
         col.record(case, nontrivial, classes, judge_case(case), key=h64(*case['docs'], str(case['perms'])))
     drive.run_given(cases(), one, n, seed)
